@@ -266,7 +266,7 @@ class Model(c13.Model):
 
         return (alive[-1].name, len(alive[-1].content)) if alive else ('start', 0)
 
-    def on_restart(self, told, c, i, exc=None):
+    def on_restart(self, told, c, i):
         self.inc += 1
         self.now  = set()
         self.last = -1
@@ -449,97 +449,99 @@ class Exec:
 
         backup = self.state_files()
         rkey   = self.reader_key()
+        rfile  = self.r.read_file
         i      = tuple(self.r.tell())
-        saved  = self.r.read_file
 
-        for call in ('write_head', 'close'):
-            j     = 0
-            plans = [('before', 0)]
+        def point(call, plan):
+            self.shim.arm(plan)
 
-            while plans:
-                plan = plans.pop(0)
+            try:
+                getattr(self.r, call)()
 
-                self.shim.arm(plan)
+                crashed = False
 
-                try:
-                    getattr(self.r, call)()
+            except Crash:
+                crashed = True
 
-                    crashed = False
+            finally:
+                self.shim.disarm()
 
-                except Crash:
-                    crashed = True
+            trace = self.shim.trace
 
-                finally:
-                    self.shim.disarm()
+            if self.reader_key() != rkey or self.r.read_file is not rfile:
+                raise RuntimeError(f'harness: {call}() with crash plan {plan} changed the reader object')
 
-                trace = self.shim.trace
+            m   = self.m.clone()
+            why = (f'{call}() stopped {plan[0]} file-system operation #{plan[1]}' if crashed else f'{call}() completed and the process '
+                   f'stopped') + (f' after {plan[2]} bytes' if plan[0] == 'torn' else '') + f', operations so far {trace}'
 
-                if call == 'close' and not crashed:   # a completed close() closed the read file: only its crash points are run
-                    raise RuntimeError('harness: close() was expected to crash')
+            self.count('crash_points')
+            self.count(f'crash_points_in_{call}')
 
-                if self.reader_key() != rkey:
-                    raise RuntimeError(f'harness: {call}() with {plan} changed the reader object')
+            if plan[0] == 'torn':
+                self.count('torn_write_prefixes')
 
-                m   = self.m.clone()
-                why = f'{call}() stopped {plan[0]} file-system operation #{plan[1]}' + (f' after {plan[2]} bytes' if plan[0] == 'torn' else '') + \
-                    f' {trace}'
+            disk = self.state_files()
 
-                self.count('crash_points')
-                self.count(f'crash_points_{call}')
+            self.count('disk:' + ','.join(f'{nm}=' + ('absent' if nm not in disk else 'empty' if not disk[nm] else
+                'complete' if disk[nm].endswith(b'\n') else 'partial') for nm in ('head.json', 'head.json.tmp')))
 
-                if plan[0] == 'torn':
-                    self.count('torn_write_prefixes')
+            r2 = None
 
-                disk = self.state_files()
+            try:
+                r2 = self.open_reader(m, m.c, i, why)
 
-                self.count('disk:' + ','.join(f'{nm}={"absent" if nm not in disk else "empty" if not disk[nm] else "complete" if disk[nm].endswith(b"\n") else "partial"}'
-                    for nm in ('head.json', 'head.json.tmp')))
+                self.drain(r2, m, f'incarnation after {why}')
 
-                r2 = None
+            finally:
+                self.abandon(r2)
+                self.put_state_files(backup)
 
-                try:
-                    r2 = self.open_reader(m, m.c, i, why)
+            return crashed, trace
 
-                    self.drain(r2, m, f'incarnation after {why}')
+        # write_head(): before operation 0, 1, ... until it completes (= stopped after the last operation); every prefix of a write
 
-                finally:
-                    self.abandon(r2)
-                    self.put_state_files(backup)
+        j = 0
 
-                # next crash points: inside the operation just reached (torn write) and before the next one / after the last
+        while True:
+            crashed, trace = point('write_head', ('before', j))
 
-                if plan[0] == 'before':
-                    j = plan[1]
+            if not crashed:
+                self.ops = [(k, nm, n) for k, nm, n in trace]
 
-                    if j < len(trace) - 0 and crashed:
-                        kind, _, n = trace[j]
+                break
 
-                        if kind == 'write' and n and (call == 'write_head' or True):
-                            ps = range(1, n) if call == 'write_head' else sorted({1, n // 2, n - 1})
+            kind, _, n = trace[j]
 
-                            plans += [('torn', j, p) for p in ps if 0 < p < n]
+            if kind == 'write' and n:
+                for p in range(1, n):
+                    point('write_head', ('torn', j, p))
 
-                        plans.append(('probe', j + 1))
+            j += 1
 
-                elif plan[0] == 'torn':
-                    pass
+        # close(): the same operations (it saves first); a completed close() would change the reader, so its last point is
+        # 'after the last operation' of the save; three prefixes per write
 
-                if plans and plans[0][0] == 'probe':   # is there an operation j+1?  'before j+1' crashes iff there is one;
-                    jn = plans.pop(0)[1]               # otherwise the save completes: that is the point 'after the last one'
+        nops = j
 
-                    plans.insert(0, ('before', jn))
+        for j in range(nops):
+            crashed, trace = point('close', ('before', j))
 
-                if not crashed and call == 'write_head':
-                    if self.ops is None:
-                        self.ops = [(k, nm) for k, nm, _ in trace]
+            if not crashed:
+                raise RuntimeError('harness: close() makes fewer file-system operations than write_head()')
 
-                    break
+            kind, _, n = trace[j]
 
-            if call == 'close':
-                pass
+            if kind == 'write' and n:
+                for p in sorted({1, n // 2, n - 1}):
+                    if 0 < p < n:
+                        point('close', ('torn', j, p))
 
-        if self.r.read_file is not saved:
-            raise RuntimeError('harness: reader file object changed during crash-point enumeration')
+        if nops:
+            crashed, trace = point('close', ('after', nops - 1))
+
+            if not crashed:
+                raise RuntimeError('harness: close() did not reach the last file-system operation of the save')
 
     # -- enabled operations / one operation
 
